@@ -85,13 +85,6 @@ is the model the driver runs on the trapezoids the implementation's aligner was 
 hit by hit with `dp.AlignTraps`.  The theorems below are about that model, with the cost record
 `palsCosts` the driver uses. -/
 
-open Biogo.Proofs.PalsKernelSound in
-/-- the functions the kernel model transcribes are the ones it was written against (since the
-    seventh repair also the two `Less` methods of `dp/sort.go`: the model sorts by both coordinates) -/
-theorem kernel_source_facts :
-    fpTraceForward = "3242f214c997c8ca" ∧ fpTraceReverse = "28298aacb4d36e37" ∧
-    fpAlignRecursion = "d76e96b076003751" ∧ fpAlignTraps = "12866ecdea35edb5" ∧
-    fpStartsLess = "b7d2e4dbaeec5a67" ∧ fpEndsLess = "a5365f6edcfa5bf9" := by decide
 
 open Biogo.Proofs.PalsKernelSound in
 theorem palsCosts_ok : CostsOK palsCosts ∧ palsCosts.matchCost - palsCosts.diffCost = 1 ∧ palsCosts.diffCost = 3 := by
